@@ -18,6 +18,7 @@ var (
 	chRecvN    = HeapKey{"CH$recvN", "(Array Int Int)"}
 	chLastSend = HeapKey{"CH$lastSend", "Int"}
 	chLastRecv = HeapKey{"CH$lastRecv", "Int"}
+	chLastOn   = HeapKey{"CH$lastSendOn", "(Array Int Int)"}
 )
 
 // Message log of a channel (trusted FIFO model): CH$msg$T[ch][k] is the k-th value ever sent on ch, sentN / recvN count
@@ -43,6 +44,7 @@ func (fx *FuncCtx) chanLogSend(st *State, ch string, et types.Type, v Val) {
 		fx.heapSet(st, k, sx("store", cur, ch, sx("store", sx("select", cur, ch), n, v.C[i])))
 	}
 	fx.heapSet(st, chLastSend, n)
+	fx.heapSet(st, chLastOn, sx("store", fx.heapGet(st.heap, chLastOn), ch, n))
 	fx.heapSet(st, chSentN, sx("store", sn, ch, sx("+", n, "1")))
 	fx.trusted["channel message log: a channel delivers the values sent on it in the order of the sends (FIFO), each once"] = true
 }
